@@ -273,6 +273,13 @@ def number_pool(tier):
             for dlt in (0, 1, -1):
                 add(str(m * 10 ** j + dlt))
                 add(str(-(m * 10 ** j + dlt)))
+    # decimal fractions that are multiples of a unit, and the doubles next to them on either side (the hair decides the side)
+    import math
+    for base in ('0.07', '0.29', '0.017', '1.15', '1.7', '0.9', '3.3', '64791087030671.9', '0.3', '1.1', '0.57', '4.35', '2.05', '8.2'):
+        b = float(base)
+        for x in (b, math.nextafter(b, math.inf), math.nextafter(b, -math.inf)):
+            add(repr(x))
+            add('-' + repr(x))
     return out
 
 
